@@ -227,6 +227,10 @@ def check_schema(c, it, tr, decisions, src, expected_events, label, method="visi
         c.prove(f"{label}/visitor-does-not-raise", False, note=f"raised {exc_name(out)}: {out!r}", only=["C01", "C02"])
         return None
     c.prove(f"{label}/visitor-does-not-raise", True)
+    if out is None:
+        # a NodeTransformer visitor that returns None DELETES the statement from the function
+        c.prove(f"{label}/statement-not-deleted", False, note="the visitor returned None", only=["C01", "C02"])
+        return None
     outs = out if isinstance(out, list) else [out]
     bad = instantiate_and_compile(outs)
     c.prove(f"{label}/output-compiles", bad is None, note=str(bad), only=["C01"])
@@ -612,6 +616,8 @@ PASS_SCHEMAS = [
     ("with-no-target", "with __E1:\n    __S1", []),
     ("with-two-targets", "with __E1 as w, __E2 as (p, q):\n    __S1", [("w", None, None, "w", True), ("p", None, None, "p", True), ("q", None, None, "q", True)]),
     ("with-attribute-target", "with __E1 as o.f:\n    __S1", []),
+    ("with-three-items", "with __E1 as w, __E2 as p, __E3 as q:\n    __S1", [("w", None, None, "w", True), ("p", None, None, "p", True), ("q", None, None, "q", True)]),
+    ("with-target-in-the-middle", "with __E1, __E2 as p, __E3:\n    __S1", [("p", None, None, "p", True)]),
     ("nested-def", "def g(a, b=__E1):\n    x = 1\n    return x", []),
     ("nested-class", "class A(__E1):\n    def m(self):\n        return 1", []),
     ("nested-class-body", "class A:\n    v = __E1\n    def m(self):\n        w = 1", []),
@@ -929,7 +935,7 @@ def fresh(tag):
     EVALS.append(tag)
     return len(EVALS)
 
-def with_defaults(x=fresh("x"), *, k=fresh("k")):
+def with_defaults(x: fresh("ann-x") = fresh("x"), *, k: fresh("ann-k") = fresh("k")) -> fresh("ann-return"):
     r = x * 10 + k
     return r
 
@@ -1050,7 +1056,14 @@ def u_transform_orchestration(c):
                 note=f"defaults {new.__defaults__!r}/{new.__kwdefaults__!r} vs {defaults_before!r}/{kwdefaults_before!r}")
         # the default and annotation expressions belong to the ORIGINAL definition: building the instrumented function evaluates
         # nothing of the user's program a second time (no side effect, no different value, no NameError for enclosing locals)
-        c.prove(f"{label}/default-and-annotation-expressions-not-evaluated-again", list(mod.EVALS) == evals_before, note=f"{mod.EVALS} vs {evals_before}", only=["C01"])
+        new_evals = list(mod.EVALS)[len(evals_before):]
+        param_anns = [e for e in new_evals if e.startswith("ann-") and e != "ann-return"]
+        c.prove(f"{label}/default-and-annotation-expressions-not-evaluated-again", [e for e in new_evals if e not in param_anns] == [],
+                note=f"evaluated again: {new_evals}", only=["C01"])
+        # the transformer itself evaluates the annotation expressions of the parameters it looks at (to obtain their tags): recorded finding
+        # (same family as the local-annotation one); the rewritten definition must not evaluate them a further time
+        c.prove(f"{label}/parameter-annotations-not-evaluated-by-the-instrumentation", param_anns == [], note=f"evaluated again: {param_anns}", only=["C01"])
+        c.prove(f"{label}/parameter-annotations-evaluated-at-most-once-more", all(param_anns.count(e) <= 1 for e in param_anns), note=f"{param_anns}", only=["C01"])
         c.prove(f"{label}/same-annotations", dict(getattr(new, "__annotations__", {})) == annotations_before, only=["C01"])
         c.prove(f"{label}/original-function-untouched", fn.__code__ is code_before and fn.__defaults__ == defaults_before
                 and not hasattr(fn, "__ptera_info__"))
